@@ -19,6 +19,47 @@ fn build(pre: &[(u64, u64)]) -> DistinguishedName { let mut dn = DistinguishedNa
 '''
 
 
+ISSUING = r"""
+    use rcgen::*;
+    fn count(h: &[u8], n: &[u8]) -> usize { h.windows(n.len()).filter(|w| *w == n).count() }
+    let ikey = KeyPair::generate().unwrap();
+    let skey = KeyPair::generate().unwrap();
+    let mut ip = CertificateParams::default();
+    ip.distinguished_name = DistinguishedName::new();
+    ip.distinguished_name.push(DnType::CommonName, "issuer-cn");
+    ip.is_ca = IsCa::Ca(BasicConstraints::Unconstrained);
+    ip.key_identifier_method = KeyIdMethod::PreSpecified(vec![0xaa, 0xaa, 0xaa, 0xaa]);
+    ip.key_usages = vec![KeyUsagePurpose::KeyCertSign, KeyUsagePurpose::CrlSign];
+    let issuer = ip.clone().self_signed(&ikey).unwrap();
+    let mk = || { let mut p = CertificateParams::default(); p.distinguished_name = DistinguishedName::new();
+        p.distinguished_name.push(DnType::CommonName, "subject-cn"); p.use_authority_key_identifier_extension = true;
+        p.key_identifier_method = KeyIdMethod::PreSpecified(vec![0xbb, 0xbb, 0xbb, 0xbb]); p };
+    let aki: &[u8] = &[0x80, 4, 0xaa, 0xaa, 0xaa, 0xaa];
+    // CertificateParams::signed_by
+    let c = mk().signed_by(&skey, &issuer, &ikey).unwrap();
+    assert_eq!(count(c.der(), b"issuer-cn"), 1, "signed_by: issuer field is not the issuer's subject");
+    assert_eq!(count(c.der(), b"subject-cn"), 1, "signed_by: subject field");
+    assert_eq!(count(c.der(), aki), 1, "signed_by: AKI is not the issuer's key identifier");
+    assert_eq!(c.params(), &mk(), "signed_by: returned parameters");
+    // self_signed
+    let c = mk().self_signed(&skey).unwrap();
+    assert_eq!(count(c.der(), b"subject-cn"), 2, "self_signed: issuer == subject");
+    assert_eq!(count(c.der(), &[0x80, 4, 0xbb, 0xbb, 0xbb, 0xbb]), 1, "self_signed: AKI is the own key identifier");
+    // CRL guards and issuer view
+    let crl = |this: i64, next: i64| CertificateRevocationListParams { this_update: time::OffsetDateTime::from_unix_timestamp(this).unwrap(),
+        next_update: time::OffsetDateTime::from_unix_timestamp(next).unwrap() + time::Duration::nanoseconds(5), crl_number: SerialNumber::from(1u64),
+        issuing_distribution_point: None, revoked_certs: vec![], key_identifier_method: KeyIdMethod::PreSpecified(vec![7]) };
+    let ok = crl(1_700_000_000, 1_700_000_001).signed_by(&issuer, &ikey).unwrap();
+    assert_eq!(count(ok.der(), b"issuer-cn"), 1, "crl: issuer field is not the issuer's subject");
+    assert!(crl(1_700_000_000, 1_700_000_000).signed_by(&issuer, &ikey).is_err(), "crl: nextUpdate in the same second as thisUpdate accepted");
+    assert!(crl(1_700_000_001, 1_700_000_000).signed_by(&issuer, &ikey).is_err(), "crl: nextUpdate before thisUpdate accepted");
+    let mut np = ip.clone();
+    np.key_usages = vec![KeyUsagePurpose::DigitalSignature];
+    let no_crl_sign = np.self_signed(&ikey).unwrap();
+    assert!(crl(1_700_000_000, 1_700_000_009).signed_by(&no_crl_sign, &ikey).is_err(), "crl: issuer without cRLSign accepted");
+"""
+
+
 def program(cex: dict) -> str:
     op = cex.get("op")
     pre = ", ".join(f"({t}, {v})" for (t, v) in cex.get("pre", []))
@@ -63,6 +104,8 @@ def program(cex: dict) -> str:
                 "    // GeneralSubtree { base [4] ... }: directoryName is a CHOICE, so [4] must be EXPLICIT: A4 len 30 len { RDNs }\n"
                 "    let pos = der.windows(2).position(|w| w[0] == 0xa4 && w[1] < 0x80).expect(\"directoryName not found\");\n"
                 "    assert_eq!(der[pos + 2], 0x30, \"directoryName [4] is not explicitly tagged: the Name SEQUENCE tag is missing\");\n")
+    if op in ("issuer-view", "crl-guard"):
+        body = ISSUING
     return PRELUDE + "fn main() {\n" + body + "    println!(\"replay-ok\");\n}\n"
 
 
@@ -75,7 +118,7 @@ def replay(doc: dict) -> bool:
         (scratch / "src").mkdir()
         (scratch / "Cargo.toml").write_text(
             '[package]\nname = "mreplay"\nversion = "0.0.0"\nedition = "2021"\n[workspace]\n[dependencies]\n'
-            f'rcgen = {{ path = "{REPO}/rcgen" }}\n')
+            f'rcgen = {{ path = "{REPO}/rcgen" }}\ntime = {{ version = "0.3.6", default-features = false }}\n')
         shutil.copy(REPO / "Cargo.lock", scratch / "Cargo.lock")
         (scratch / "src" / "main.rs").write_text(src)
         env = dict(os.environ)
